@@ -12,7 +12,8 @@
 From Coq Require Import ZArith List Bool.
 Import ListNotations.
 From Urwid Require Import PyBase ListBoxView ListBoxViewProofs ListBoxWindowProofs ListBoxHistoryProofs ListBoxMouseProofs
-  ListBoxPendingProofs ListBoxPageProofs ListBoxPageUpProofs.
+  ListBoxPendingProofs ListBoxPageProofs ListBoxPageUpProofs ListBoxReachProofs ListBoxWalker ListBoxWalkerProofs.
+From Urwid Require MonitoredList.
 Open Scope Z_scope.
 
 (* --- (3) view_ok.  For every list of flow widgets with heights >= 0 (zero-height ones included),
@@ -226,6 +227,42 @@ Example stale_pending_now_renders :
   = [(0, []); (0, []); (0, [(0, 0); (1, 0); (-1, -1)])].
 Proof. vm_compute. reflexivity. Qed.
 
+(* --- every state an operation of the list box returns is reached from the state it was given by a
+   chain of atomic transitions: shift_focus, change_focus, the walker's set_focus on an existing
+   position, updates of the two pending flags, a cursor move inside the focus widget.  (OSync and
+   OItems carry foreign data and are excluded.) --- *)
+Theorem operations_are_chains_of_atomic_transitions :
+  forall s o s' out, own_op o = true -> step s o = Ok (s', out) -> Reach s s'.
+Proof. exact reach_step. Qed.
+Print Assumptions operations_are_chains_of_atomic_transitions.
+
+(* --- the list box over a SimpleFocusListWalker (Model/ListBoxWalker.v): walker edits - item and
+   slice assignment and deletion with any step, insert, +=, *=, reverse, sort, ... - are executed
+   by the MonitoredFocusList model of C16, whose focus arithmetic is re-translated from
+   monitored_list.py on every run and whose theorem step_sound (an edit leaves the focus inside the
+   list) is used here.  Over ANY history of list box operations and walker edits the focus position
+   stays inside the list and the view state stays ViewOK ... --- *)
+Theorem walker_histories_keep_focus_and_view_valid :
+  forall ops ws, WInv ws -> Forall wop_ok ops ->
+    forall ws' out, In (Ok (ws', out)) (w_run ws ops) -> WInv ws'.
+Proof. exact walker_history_inv. Qed.
+Print Assumptions walker_histories_keep_focus_and_view_valid.
+
+(* --- ... so after any such history render does not raise, shows a gap-free window (ShowsWindow: all
+   clauses of view_ok), and a NON-EMPTY list is never drawn as a blank box: the window is the one
+   of an existing focus widget.  (This is the clause a walker that loses its focus after an
+   extended-slice deletion breaks.) --- *)
+Theorem window_contains_focus_after_any_history_of_keys_and_edits :
+  forall ops ws ws' out maxrow fflag,
+    WInv ws -> Forall wop_ok ops -> In (Ok (ws', out)) (w_run ws ops) ->
+    WidgetsOK (items (w_lb ws')) -> 1 <= maxrow ->
+    exists s'' win cur,
+      render (w_lb ws') maxrow fflag = Ok (s'', (win, cur)) /\
+      items s'' = items (w_lb ws') /\ ShowsWindow s'' maxrow fflag win cur /\
+      (w_ids ws' <> [] -> exists w, nthz (items s'') (focus s'') = Some w).
+Proof. exact walker_render_lemma. Qed.
+Print Assumptions window_contains_focus_after_any_history_of_keys_and_edits.
+
 (* --- non-vacuity: the hypotheses are met by ordinary states and the model computes --- *)
 Definition ex_items : list item :=
   [ {| i_rows := 2; i_sel := false; i_cy := None |};
@@ -255,4 +292,26 @@ Example history_somewhere :
       (run s0 [ORender 3 true; OKey 3 KDown; ORender 3 true; OMouse 3 1 0; ORender 3 true; OKey 3 KUp; ORender 3 false])
   = [ (0, 0, [(0, 0); (0, 1); (2, 0)]); (2, 0, []); (2, 0, [(2, 0); (2, 1); (2, 2)]);
       (2, 0, []); (2, 0, [(2, 0); (2, 1); (2, 2)]); (0, 0, []); (0, 0, [(0, 1); (2, 0); (2, 1)]) ].
+Proof. vm_compute. reflexivity. Qed.
+
+Definition ex_it : item := {| i_rows := 1; i_sel := true; i_cy := None |}.
+Definition ex_ws : wstate :=
+  {| w_lb := {| items := [ex_it; ex_it; ex_it; ex_it; ex_it]; focus := 4; off := 0; inum := 0; iden := 1;
+                pend := PNone; vpend := None |};
+     w_ids := [0; 1; 2; 3; 4]; w_tab := combine [0; 1; 2; 3; 4] [ex_it; ex_it; ex_it; ex_it; ex_it] |}.
+
+Example walker_state_ok_somewhere : WInv ex_ws.
+Proof. split; [reflexivity|]. split; [right; cbv; split; [discriminate | reflexivity] | cbv; intuition discriminate]. Qed.
+
+(* del walker[::2] with the focus on the last item, an insert in front, page up *)
+Example walker_history_somewhere :
+  map (fun r => match r with
+                | Ok (ws, WOut (OutView rows _)) => (w_ids ws, focus (w_lb ws), rows)
+                | Ok (ws, _) => (w_ids ws, focus (w_lb ws), [])
+                | Err _ => ([], -9, [])
+                end)
+      (w_run ex_ws [WLb (ORender 3 true); WEdit [] (MonitoredList.DelSlice None None (Some 2)); WLb (ORender 3 true);
+                    WEdit [(7, ex_it)] (MonitoredList.Insert 0 7); WLb (OKey 3 KPageUp); WLb (ORender 3 true)])
+  = [([0; 1; 2; 3; 4], 4, [(2, 0); (3, 0); (4, 0)]); ([1; 3], 1, []); ([1; 3], 1, [(0, 0); (1, 0); (-1, -1)]);
+     ([7; 1; 3], 2, []); ([7; 1; 3], 0, []); ([7; 1; 3], 0, [(0, 0); (1, 0); (2, 0)])].
 Proof. vm_compute. reflexivity. Qed.
